@@ -49,7 +49,7 @@ int main(int argc, char** argv) {
   if (!strcmp(profile, "c01")) { }
   else if (!strcmp(profile, "c03")) { only_aligned = 1; w_alloc = 40; w_realloc = 20; w_expand = 8; w_query = 10; w_heap = 2; }
   else if (!strcmp(profile, "c04")) { w_chain = 25; w_alloc = 30; w_free = 30; w_realloc = 5; w_write = 8; fill_mode_default = 0; }
-  else if (!strcmp(profile, "c05")) { w_realloc = 45; w_alloc = 25; w_free = 15; w_expand = 8; w_bad = 6; w_visit = 3; }   /* failing re-allocations too; the heap walk shows whether the old block was released exactly once */
+  else if (!strcmp(profile, "c05")) { w_realloc = 45; w_alloc = 25; w_free = 15; w_expand = 8; w_bad = 9; w_visit = 3; }   /* failing re-allocations too; the heap walk shows whether the old block was released exactly once */
   else if (!strcmp(profile, "c10")) { w_heap = 20; w_query = 15; w_alloc = 35; w_free = 15; w_realloc = 8; }
   else if (!strcmp(profile, "c06")) { w_bad = 40; w_alloc = 30; w_free = 20; w_realloc = 8; w_visit = 4; }
   else if (!strcmp(profile, "c15")) { w_alloc = 55; w_free = 25; w_realloc = 8; w_heap = 3; w_query = 3; w_visit = 2; max_size = 6u << 20; }
